@@ -994,8 +994,8 @@ def check_prefix(case, ctx):
             if err is not None:
                 ctx.count('exception_on_empty_prefix')
                 ctx.note('exceptions_on_empty_prefix', '%s: %s' % (label, type(err).__name__))
-                ctx.violate('exception-before-any-row@%s' % label, '%s -> batch %d (nothing but empty batches so far) raised %r; '
-                            'pandas computes this aggregation on an empty frame' % (head, k + 1, err), case)
+                ctx.violate('exception-before-any-row@%s' % label, '%s, example %s -> batch %d (nothing but empty batches so far) raised %r; '
+                            'pandas computes this aggregation on an empty frame' % (label, case.get('ex'), k + 1, err), case)
             continue
         prefix = root_full.iloc[:cum]
         scope = 'the first %d batches' % (k + 1)
